@@ -467,6 +467,17 @@ func (node *Node) hashWithCount(version int64) []byte {
 	return node.hash
 }
 
+// resetUnsavedHashes forgets the memoised hashes of the nodes that have not been saved yet: they
+// depend on the version the nodes will be saved with.
+func (node *Node) resetUnsavedHashes() {
+	if node == nil || node.nodeKey != nil {
+		return
+	}
+	node.hash = nil
+	node.leftNode.resetUnsavedHashes()
+	node.rightNode.resetUnsavedHashes()
+}
+
 // validate validates the node contents
 func (node *Node) validate() error {
 	if node == nil {
